@@ -343,6 +343,56 @@ def Val.abstract : Val → Val
 
 def Vars.abstract (V : Vars) : Vars := { cols := V.cols, vars := V.vars.map (fun kv => (kv.1, Val.abstract kv.2)) }
 
+/-! ### bind / unbind, at the level of (module, variables) pairs
+
+`Module.bind(variables)` = `self.clone(parent=core.bind(variables), _deep_clone=True)`: the same module
+(body and hyper-parameters; here: its `SProg`) attached to a root scope over `variables` with nothing
+mutable.  A submodule reached through a bound module (setup-style attribute) is the child's body bound at
+the child's scope path over the *same* root store.  `unbind()` returns
+`(self.clone(_deep_clone=True, _reset_names=True, name=None), self.variables)` where `self.variables` is
+`scope.variables()`: for every collection in which this scope has a subtree, that subtree. -/
+
+/-- `q` with the module path `π'` removed after the collection name, when `q` lies under `π'` -/
+def strip (π' : Path) (q : Path) : Option Path :=
+  match q with
+  | c :: r => if π'.isPrefixOf r then some (c :: r.drop π'.length) else none
+  | [] => none
+
+/-- `{col: V[col][n₁]…[nₖ] for col in V}`: the subtree of every collection at module path `π'` -/
+def restrict (π' : Path) (V : Vars) : Vars :=
+  { cols := V.cols, vars := V.vars.filterMap (fun kv => (strip π' kv.1).map (fun k => (k, kv.2))) }
+
+/-- `Scope.variables()` of the scope at `π`: the root sees every collection, a child scope those in which
+it has a subtree (`_populate_collections` / `_collection`) -/
+def scopeVariables (π : Path) (s : Store) : Vars :=
+  let sub := restrict π ⟨s.cols.map (·.1), s.vars⟩
+  { cols := if π = [] then sub.cols else sub.cols.filter (fun c => sub.vars.any (fun kv => decide (kv.1.head? = some c))),
+    vars := sub.vars }
+
+/-- a module object, as far as bind / unbind can tell -/
+structure Mod where
+  body : SProg
+  name : Option String := none
+  /-- the scope it is bound to: path from the root, and the root's store -/
+  bound : Option (Path × Store) := none
+  deriving Repr, Inhabited
+
+/-- `Module.bind(variables, rngs=…)` (default `mutable=False`) -/
+def Mod.bind (m : Mod) (V : Vars) (rngs : List String) : Mod :=
+  { body := m.body, name := m.name, bound := some ([], Scope.bind .ff V rngs) }
+
+/-- a submodule reached through a bound module (`bound.attr` in the setup style) -/
+def Mod.child (m : Mod) (k : Kid) : Mod :=
+  match m.bound with
+  | some (π, s) => { body := k.body, name := some k.name, bound := some (π ++ [k.name], s) }
+  | none => { body := k.body, name := some k.name, bound := none }
+
+/-- `Module.unbind()`; `none` = `CallUnbindOnUnboundModuleError` -/
+def Mod.unbind (m : Mod) : Option (Mod × Vars) :=
+  match m.bound with
+  | some (π, s) => some ({ body := m.body, name := none, bound := none }, scopeVariables π s)
+  | none => none
+
 /-! ### static syntax helpers used by the theorems and the generators -/
 
 def size : SProg → Nat
@@ -368,6 +418,26 @@ def declOnly : SProg → Bool
   | .sow _ _ _ => false
   | .perturb _ _ _ => false
   | .get _ _ => false
+  | _ => true
+
+/-- the expression mentions neither the argument nor a local -/
+def Expr.isConst : Expr → Bool
+  | .const _ => true
+  | .arg => false
+  | .loc _ => false
+  | .add a b => a.isConst && b.isConst
+  | .mul a b => a.isConst && b.isConst
+
+/-- every value the program stores (variable initialisers, `put`, `sow`, `perturb`) is a constant
+expression: nothing that ends up in a collection depends on the call argument.  These are the programs
+`lazy_init` accepts with a `ShapeDtypeStruct` in place of the argument. -/
+def argFree : SProg → Bool
+  | .seq a b => argFree a && argFree b
+  | .child _ _ b => argFree b
+  | .var _ _ _ e => e.isConst
+  | .put _ _ _ e => e.isConst
+  | .sow _ _ e => e.isConst
+  | .perturb _ _ e => e.isConst
   | _ => true
 
 /-- collections a program sows into -/
